@@ -327,3 +327,6 @@ def build(S, tier):
             S.prove(f"{cls}.{attr}#ensures.setter_forwards_to_context@{i}", p.status == "return" and p.value is True,
                     kind="ensures", why=f"{p.status} {p.exc or p.reason or p.value}")
             S.register_function(p.interp, f"{cls}.{attr}", 1)
+    # a restart / round trip rebuilds the criteria by name: the name must lead back to the same class
+    from contracts.common_registry import registry_identity
+    registry_identity(S, "criteria rebuilt by name", lambda n: n.endswith("Criteria"))
